@@ -1592,6 +1592,7 @@ def oracle_c06(run, ops, impl):
 
 PROPS["C06"] = {
     "modules": ["NibiruProofs.C06"],
+    "fact_obligations": ["fact_C06_bank_calls_go_through_the_wrapper"],
     "prefix": "C06_",
     "runs": [{"model": "funtoken", "n_quick": 60, "n_thorough": 1500, "thorough_seeds": 6, "nontrivial": r"^ok M=[^-]"}],
     "oracle": oracle_c06,
